@@ -169,3 +169,173 @@ def run(c, tier, seed, props=("roundtrip", "canon", "pyc")):
     c.notes["heading_fragment_correspondence"] = dist
     c.cov["traces_validated_against_impl"] += len(items)
     return dist
+
+
+# ---------------------------------------------------------------------------------------------------------
+# second fragment: HTML entities in running text (coq/EntityFrag.v, driver `entfrag`)
+
+ENT_OTHER = ["a", "x", "X", "0", "1", "9", "f", "F", "g", "amp", "lt", "nbsp", "thetasym", "Aacute", "zwnj", "#", ";", "&", " ", "é", "中",
+             "\U0001F600", "\\", "_", "٣", "10FFFF", "110000", "1114111", "1114112", "00", "0000000041", "x0", "x00000000041"]
+
+
+def ent_inputs(tier, seed):
+    import html.entities
+    rng = random.Random(seed * 104729 + 7)
+    names = sorted(k for k in html.entities.entitydefs)
+    out = []
+    # table-driven: every name, with and without ';', wrong case, prefix, suffix
+    for n in names:
+        out += ["&%s;" % n, "&%s" % n, "&%s;;" % n, "a&%s;b" % n, "&%s;&%s;" % (n, n), "&%sx;" % n, "&%s;" % n.swapcase(), "&#%s;" % n]
+    # numeric boundaries
+    for v in (0, 1, 9, 10, 65, 0xD7FF, 0xD800, 0xFFFF, 0x10000, 0x10FFFF, 0x110000, 99999999, 100000000, 0xFFFFFFF, 0xFFFFFFFF, 0x100000000):
+        for z in ("", "0", "000", "0" * 9, "0" * 40):
+            out += ["&#%s%d;" % (z, v), "&#x%s%x;" % (z, v), "&#X%s%X;" % (z, v), "&#%s%d" % (z, v), "t&#%s%d;t" % (z, v), "&#x%s%xg;" % (z, v)]
+    top = 7 if tier == "quick" else 9
+    for n in range(0, top + 1):
+        for t in itertools.product("&#;x4", repeat=n):
+            s = "".join(t)
+            if s[:1] not in ("#", ";"):
+                out.append(s)
+    n_rand = 20000 if tier == "quick" else 400000
+    for _ in range(n_rand):
+        parts = [rng.choice(ENT_OTHER) for _ in range(rng.randint(1, rng.choice([3, 6, 12, 25])))]
+        if rng.random() < 0.6:
+            k = rng.randrange(len(parts) + 1)
+            parts.insert(k, rng.choice(["&", "&#", "&#x", "&#X"]) + rng.choice(["amp", "41", "x41", "0", "lt", "1" * rng.randint(1, 12), rng.choice(names)]) + rng.choice([";", ";", ""]))
+        s = "".join(parts)
+        if s[:1] in ("#", ";"):
+            s = "a" + s
+        out.append(s)
+    seen = set()
+    uniq = []
+    for s in out:
+        if s not in seen:
+            seen.add(s)
+            uniq.append(s)
+    return uniq
+
+
+def _eshow(canon_tokens):
+    out = []
+    for t in canon_tokens:
+        d = dict(t[1:])
+        codes = lambda x: ".".join(str(ord(ch)) for ch in x)  # noqa: E731
+        if t[0] == "Text":
+            out.append("T" + codes(d["text"]))
+        elif t[0] == "HTMLEntityStart":
+            out.append("A")
+        elif t[0] == "HTMLEntityNumeric":
+            out.append("N")
+        elif t[0] == "HTMLEntityHex":
+            out.append("X" + codes(d["char"]))
+        elif t[0] == "HTMLEntityEnd":
+            out.append("Z")
+        else:
+            out.append("?" + t[0])
+    return " ".join(out) or "-"
+
+
+def _ework(items):
+    res = []
+    for s in items:
+        row = {}
+        for which in ("py", "c"):
+            r = tokharness.tokenize(which, s)
+            row[which] = _eshow(r[1]) if r[0] == "ok" else "EXC %s %s" % (r[1], r[2])
+        res.append(row)
+    return res
+
+
+def _erender(shown):
+    if shown == "-":
+        return ""
+    out = []
+    dec = lambda x: "".join(chr(int(v)) for v in x.split(".")) if x else ""  # noqa: E731
+    for t in shown.split(" "):
+        if t[0] == "T":
+            out.append(dec(t[1:]))
+        elif t == "A":
+            out.append("&")
+        elif t == "N":
+            out.append("#")
+        elif t[0] == "X":
+            out.append(dec(t[1:]))
+        elif t == "Z":
+            out.append(";")
+        else:
+            return None
+    return "".join(out)
+
+
+def _ecanonical(shown):
+    """no empty Text, no two adjacent Text at the top level (the Text inside an entity is its own list)"""
+    if shown == "-":
+        return True
+    ts = shown.split(" ")
+    if any(t == "T" for t in ts):
+        return False
+    inside = False
+    prev_text = False
+    for t in ts:
+        if t == "A":
+            inside, prev_text = True, False
+        elif t == "Z":
+            inside, prev_text = False, False
+        elif t[0] == "T" and not inside:
+            if prev_text:
+                return False
+            prev_text = True
+        elif not inside:
+            prev_text = False
+    return True
+
+
+def run_entities(c, tier, seed, props=("roundtrip", "canon", "pyc")):
+    st = tokharness.setup()
+    items = ent_inputs(tier, seed)
+    py_ms = int(getattr(st["py"], "MAX_ENTITY_SIZE", 8))
+    txt = open(os.path.join(vlib.VERIF, "coq", "gen", "Tables.v")).read()
+    c_ms = int(re.search(r"c_max_entity_size : N := (\d+)%N", txt).group(1))
+    real = vlib.robust_map(_ework, items, chunk=512, timeout=240)
+    want = {}
+    for which, flag, ms in (("py", 1, py_ms), ("c", 0, c_ms)):
+        if which == "c" and st["c"] is None:
+            continue
+        lines = ["%d %d %s" % (flag, ms, " ".join(str(ord(ch)) for ch in s)) for s in items]
+        want[which] = vlib.model_run("entfrag", lines)
+    dist = {"inputs": len(items), "with_entity": 0, "numeric": 0, "hexadecimal": 0, "ampersand_as_text": 0}
+    reported = 0
+    for i, s in enumerate(items):
+        row = real[i]
+        if not isinstance(row, dict):
+            c.fail("entity-fragment input killed or hung the interpreter: %r" % (row,), {"text": s, "kind": "entfrag"})
+            continue
+        c.cov["evaluations"] += 1
+        m = want["py"][i].split(" ")
+        dist["with_entity"] += "A" in m
+        dist["numeric"] += "N" in m
+        dist["hexadecimal"] += any(t[0] == "X" for t in m)
+        dist["ampersand_as_text"] += ("&" in s and m.count("A") < s.count("&"))
+        for which in want:
+            got = row[which]
+            if got == want[which][i] or reported >= 5:
+                continue
+            reported += 1
+            bad = None
+            if got.startswith("EXC"):
+                bad = "tokenizer raised: " + got
+            elif "roundtrip" in props and _erender(got) != s:
+                bad = "token stream does not spell the input (renders %r)" % (_erender(got),)
+            elif "canon" in props and not _ecanonical(got):
+                bad = "token stream has an empty Text or two adjacent Text tokens"
+            elif "pyc" in props and "c" in want and row.get("py") != row.get("c"):
+                bad = "Python and C token streams differ"
+            data = {"text": s, "kind": "entfrag", "tokenizer": which, "model": want[which][i], "implementation": got}
+            if bad:
+                c.fail("%s tokenizer on %r: %s" % (which, s[:80], bad), data)
+            else:
+                c.fail("correspondence EntityFrag.v / %s tokenizer broken on %r: model %s, implementation %s"
+                       % (which, s[:80], want[which][i][:120], got[:120]), data, found_input=False)
+    c.notes["entity_fragment_correspondence"] = dist
+    c.cov["traces_validated_against_impl"] += len(items)
+    return dist
